@@ -140,6 +140,8 @@ def check(x):
             fails.append('serialize_value is not idempotent on its own output')
     except Exception as e:
         fails.append('re-serializing raised %s' % type(e).__name__)
+    import copy
+    kept = copy.deepcopy(s)
     try:
         d = deserialize_value(s)
     except Exception as e:
@@ -147,6 +149,15 @@ def check(x):
         return fails
     if not same(expected(x), d):
         fails.append('round trip: %r came back as %r' % (x, d))
+    # reading is not writing: the serialized data (e.g. the rows a RAM emitter keeps) is what it was, a second read agrees
+    if not plain_json(s) or not same_plain(s, kept):
+        fails.append('deserialize_value modified the serialized data it was given: %r -> %r' % (kept, s))
+    else:
+        try:
+            if not same(expected(x), deserialize_value(s)):
+                fails.append('second read of the same serialized data: %r came back differently' % (x,))
+        except Exception as e:
+            fails.append('second deserialize_value raised %s' % type(e).__name__)
     return fails
 
 
